@@ -159,7 +159,8 @@ def gen_case(rng, **kw):
         sec = names[s]
         rows += gen_history(rng, sec=sec, **kw)
         if rng.random() < 0.15:
-            inits[sec] = (D(rng.randint(0, 500), rng.choice([0, 1])), D(rng.randint(0, 100000), 2))
+            sc = rng.choice([2, 2, 2, 3, 6])
+            inits[sec] = (D(rng.randint(0, 500), rng.choice([0, 1])), D(rng.randint(0, 10 ** (3 + sc)), sc))
     # interleave the securities' rows (keeping each one's order), as a user file would
     if nsec > 1 and rng.random() < 0.7:
         rows.sort(key=lambda r: (r["sd"], rng.random()))
